@@ -97,6 +97,43 @@ class Monitor(object):
         prev = self.prev or {'state': 'IDLE', 'conns': [], 'proto': None, 'timers': {}, 'now': 0}
         outs = obs['outs']
         k = ev['k']
+        # ---------------- C10 / C04: a connection the agent has closed is dead to it - nothing more is written to it and
+        # nothing more that arrived on it is reported (the rest of the segment that carried the fatal message included)
+        REPORTS = ('update', 'update_error', 'open', 'keepalive', 'notification', 'route_refresh')
+        closed_now = set()
+        late_reports = {}
+        for o in outs:
+            if o[0] == 'lose':
+                closed_now.add(o[1])
+            elif o[0] == 'write' and (o[1] in self.closed_by_us or o[1] in closed_now):
+                for pr in ('C10', 'C04'):
+                    self.fail(pr, 'a message was written to connection %d after the agent had closed it' % o[1], 'activity-after-close')
+                break
+            elif o[0] == 'handler' and o[1] in REPORTS and len(o) > 2:
+                if o[2] in self.closed_by_us:
+                    for pr in ('C10', 'C04'):
+                        self.fail(pr, 'a message received on connection %d was reported after the agent had closed it' % o[2],
+                                  'activity-after-close')
+                    break
+                if o[2] in closed_now:
+                    # the report of the very message that made the agent close may follow the close; a second one is a
+                    # message from behind it in the same segment
+                    late_reports[o[2]] = late_reports.get(o[2], 0) + 1
+                    if late_reports[o[2]] > 1:
+                        for pr in ('C10', 'C04'):
+                            self.fail(pr, 'messages behind the one that made the agent close connection %d were still reported' % o[2],
+                                      'activity-after-close')
+                        break
+        self.closed_by_us |= closed_now
+        # ---------------- C10 / C12: the (late) loss of a connection that is not the tracked one is no business of the
+        # session on the tracked connection
+        if k == 'lost' and prev['proto'] is not None and ev['c'] != prev['proto'] and \
+                prev['state'] in ('OPENSENT', 'OPENCONFIRM', 'ESTABLISHED') and \
+                prev['proto'] < len(prev['conns']) and prev['conns'][prev['proto']] == 'connected':
+            if obs['state'] != prev['state'] or any(o[0] in ('write', 'connect', 'lose') for o in outs):
+                for pr in ('C10', 'C12'):
+                    self.fail(pr, 'the loss of old connection %d changed the session on the tracked connection %d: %s -> %s, outputs %r' % (
+                        ev['c'], prev['proto'], prev['state'], obs['state'], [o[:2] for o in outs]), 'stale-connection-loss')
         # ---------------- C10: nothing escapes, nothing hangs
         if obs.get('hang'):
             self.fail('C10', 'handling of an event did not return (CPU budget exceeded)', 'hang')
